@@ -1,41 +1,62 @@
 """Engine `scope` (C08): spec/scope/Scope{V2,V1,V0}.tla <-> include/unifex/{v2,v1,v0}/async_scope.hpp (+ nest.hpp,
-spawn_detached.hpp, v1 async_manual_reset_event).
- 1. generate scenarios: 3 driver threads running programs over nest/start/discard/copy/lvalue-connect/spawn/complete
-    racing 1-2 join()/complete()/cleanup()/request_stop() calls
- 2. TLC: invariants on every interleaving at CAS granularity, termination under fairness, the proposed repair
- 3. export every transition (v2), build edge-covering behaviours, replay them on the real code (guided),
-    plus bounded-preemption DFS and seeded random schedules of the real code for v2, v1 and v0 scopes
- 4. validate every recorded execution against the monitor ScopeMon with TLC; sanitizer / crash / deadlock deaths in
+spawn_detached.hpp, spawn_future.hpp's futures as nest senders, detail/debug_async_scope.hpp, v1 async_manual_reset_event).
+ 1. scenarios: 3 driver threads running programs over nest/attach/start/discard/copy/lvalue-connect/spawn_detached/
+    spawn_future (consume | drop | hold)/complete racing 1-2 join()/complete()/cleanup()/request_stop() calls, stop
+    requests through the work's receiver, join receivers on an inline or a manual scheduler
+ 2. TLC: the transcription of /repo (end_scope signals only if it cleared the open bit) satisfies every invariant on every
+    interleaving at CAS granularity, terminates under fairness; the historical variant is a spec-level mutation that must
+    violate NoTouchAfterDestruction (non-vacuity).  If the header no longer contains the repair the historical variant
+    becomes the transcription and its counterexamples are replayed on the real code.
+ 3. every transition exported (v2, v1, v0), edge-covering behaviours replayed on the real code (guided), plus
+    bounded-preemption DFS and seeded random schedules of the real v2 / v1 / v0 scopes and the debug_async_scope wrappers
+ 4. every recorded execution validated against the monitor ScopeMon with TLC; sanitizer / crash / deadlock deaths in
     scope code are violations (the statement is about what may still be touched when join completes)."""
-import json, os, re, sys, time
+import hashlib, json, os, re, sys, time
 
 sys.path.insert(0, os.path.join(os.path.dirname(__file__), "..", "..", "tools"))
 import vlib
 
+HERE = os.path.dirname(os.path.abspath(__file__))
 LIB = ["inplace_stop_token.cpp", "async_manual_reset_event_v1.cpp", "async_stack.cpp", "exception.cpp"]
 CLOSERS = ("join", "cleanup", "reqstop")
+VERNAME = {2: "v2", 1: "v1", 0: "v0", 12: "v2 debug", 11: "v1 debug"}
 
 
 def O(k, a=0, b=0):
     return [k, a, b]
 
 
+N, S, D, C, J = (lambda w: O("nest", w)), (lambda w: O("start", w)), (lambda w: O("discard", w)), \
+    (lambda w: O("complete", w)), (lambda j: O("join", j))
+CP, LS, SP = (lambda w, v: O("copy", w, v)), (lambda w, v: O("lstart", w, v)), (lambda w: O("spawn", w))
+CL, RS, RST, DR = (lambda j: O("cleanup", j)), O("reqstop"), (lambda w: O("rstop", w)), O("drain")
+FS, FT, FD = (lambda w, f: O("fspawn", w, f)), (lambda f, w: O("fstart", f, w)), (lambda f, w: O("fdrop", f, w))
+
+
+class Fam:
+    """a scenario family for one scope flavour"""
+
+    def __init__(self, ver):
+        self.ver, self.out, self.seen = ver, [], set()
+
+    def add(self, t1, t2, t3, man=0):
+        sc = dict(ver=self.ver, man=man, prog=[list(t1), list(t2), list(t3)])
+        key = json.dumps(sc)
+        if key not in self.seen:
+            self.seen.add(key)
+            sc["id"] = len(self.out) + 1
+            self.out.append(sc)
+
+    def renumber(self, lst):
+        for i, s in enumerate(lst):
+            s["id"] = i + 1
+        return lst
+
+
 # ----------------------------------------------------------------------------- scenarios
 def scenarios_v2(tier):
-    out, seen = [], set()
-
-    def add(t1, t2, t3):
-        sc = dict(ver=2, prog=[list(t1), list(t2), list(t3)])
-        key = json.dumps(sc)
-        if key in seen:
-            return
-        seen.add(key)
-        sc["id"] = len(out) + 1
-        out.append(sc)
-
-    N, S, D, C, J = (lambda w: O("nest", w)), (lambda w: O("start", w)), (lambda w: O("discard", w)), \
-        (lambda w: O("complete", w)), (lambda j: O("join", j))
-    CP, LS, SP = (lambda w, v: O("copy", w, v)), (lambda w, v: O("lstart", w, v)), (lambda w: O("spawn", w))
+    f = Fam(2)
+    add = f.add
     # core (always part of the quick tier)
     add([N(1), S(1)], [C(1)], [J(1)])
     add([N(1), CP(1, 2), D(1), S(2), C(2)], [J(2)], [J(1)])
@@ -49,6 +70,12 @@ def scenarios_v2(tier):
     add([N(1), S(1)], [N(2), CP(2, 3), D(2), D(3)], [C(1), J(1)])
     add([SP(1), SP(2)], [C(2), C(1)], [J(1)])
     add([N(1), CP(1, 2), S(1), C(1), LS(2, 3), D(2)], [C(3)], [J(1)])
+    # join receivers on the manual scheduler (the continuation runs on whichever thread drains)
+    add([N(1), S(1), C(1)], [J(2), DR], [J(1), DR], man=1)
+    add([N(1), S(1)], [C(1), DR], [J(1)], man=1)
+    add([SP(1)], [C(1)], [J(1), DR], man=1)
+    ncore = len(f.out)
+
     # generated family: worker x worker/second-joiner x joiner
     def workers(w, v):
         return {
@@ -64,30 +91,38 @@ def scenarios_v2(tier):
             joiners = [[J(1)]] if not pend else [[C(x) for x in pend] + [J(1)], [J(1)] + [C(x) for x in pend]]
             for t3 in joiners:
                 add(p1, p2, t3)
+    if tier != "quick":
+        add([N(1), D(1)], [J(1), DR], [J(2), DR], man=1)
+        add([N(1), CP(1, 2), D(1), S(2)], [C(2), J(2), DR], [J(1), DR], man=1)
+        add([SP(1), C(1)], [SP(2), C(2), DR], [J(1)], man=1)
+    out = f.out
     if tier == "quick":
-        core, rest = out[:12], out[12:]
-        step = max(1, len(rest) // 14)
-        out = core + rest[::step][:14]
-        for i, s in enumerate(out):
-            s["id"] = i + 1
-    return out
+        core, rest = out[:ncore], out[ncore:]
+        step = max(1, len(rest) // 12)
+        out = core + rest[::step][:12]
+    return f.renumber(out)
+
+
+def scenarios_fut(ver, tier):
+    """spawn_future: the future is itself nested in the scope - consumed, dropped, or held while a join races"""
+    f = Fam(ver)
+    add = f.add
+    add([FS(1, 5), FT(5, 1)], [C(1)], [J(1)])                 # awaited
+    add([FS(1, 5), C(1), FD(5, 1)], [], [J(1)])               # result stored, future still unconsumed, dropped later
+    add([FS(1, 5), FD(5, 1)], [C(1)], [J(1)])                 # dropped while the operation runs (asks it to stop)
+    add([FS(1, 5), C(1), FT(5, 1)], [J(2)], [J(1)])           # result ready before the future is awaited
+    if ver == 2:
+        add([FS(1, 5), FT(5, 1)], [C(1), DR], [J(1)], man=1)
+    if tier != "quick":
+        add([FS(1, 5), FT(5, 1)], [C(1), J(1)], [N(2), D(2)])
+        add([FS(1, 5), FS(2, 6), FT(5, 1), FD(6, 2)], [C(1), C(2)], [J(1)])
+        add([FS(1, 5), C(1)], [N(2), S(2), C(2)], [J(1)])     # never consumed: the join must not complete
+    return f.out
 
 
 def scenarios_v1(tier):
-    out, seen = [], set()
-
-    def add(t1, t2, t3):
-        sc = dict(ver=1, prog=[list(t1), list(t2), list(t3)])
-        key = json.dumps(sc)
-        if key in seen:
-            return
-        seen.add(key)
-        sc["id"] = len(out) + 1
-        out.append(sc)
-
-    N, S, D, C = (lambda w: O("nest", w)), (lambda w: O("start", w)), (lambda w: O("discard", w)), (lambda w: O("complete", w))
-    J, CL, RS, SP = (lambda j: O("join", j)), (lambda j: O("cleanup", j)), O("reqstop"), (lambda w: O("spawn", w))
-    CP, LS = (lambda w, v: O("copy", w, v)), (lambda w, v: O("lstart", w, v))
+    f = Fam(1)
+    add = f.add
     add([SP(1)], [C(1)], [CL(1)])                       # cleanup racing a running detached operation
     add([SP(1)], [CL(1), C(1)], [])                     # stop must have been seen by the time the leaf is completed
     add([SP(1)], [RS, C(1)], [J(1)])
@@ -100,6 +135,10 @@ def scenarios_v1(tier):
     add([N(1), CP(1, 2), S(1), S(2)], [RS, C(1), C(2)], [J(1)])
     add([SP(1), SP(2)], [C(1), RS, C(2)], [J(1)])
     add([N(1), LS(1, 2), D(1)], [CL(1), C(2)], [])
+    # stop through the receiver's own stop token (receiverCallback_ of the attach operation)
+    add([N(1), S(1)], [RST(1), C(1)], [J(1)])
+    add([N(1), S(1)], [RST(1), C(1)], [CL(1)])          # both stop callbacks race for refcount_
+    add([RST(1), N(1), S(1), C(1)], [RS], [J(1)])       # receiver already stopped when the operation starts
     if tier != "quick":
         add([SP(1), C(1)], [SP(2), C(2)], [CL(1)])
         add([N(1), S(1)], [RS, RS, C(1)], [J(1)])
@@ -107,16 +146,14 @@ def scenarios_v1(tier):
         add([N(1), S(1), C(1)], [CL(1)], [CL(2)])
         add([SP(1)], [J(1)], [RS, C(1)])
         add([N(1), CP(1, 2), D(1), S(2)], [CL(1)], [C(2)])
-    return out
+        add([N(1), S(1)], [RST(1)], [RS, C(1), J(1)])
+        add([N(1), S(1), N(2), S(2)], [RST(1), C(1), C(2)], [CL(1)])
+    return f.out
 
 
 def scenarios_v0(tier):
-    out = []
-
-    def add(t1, t2, t3):
-        out.append(dict(ver=0, prog=[list(t1), list(t2), list(t3)], id=len(out) + 1))
-
-    C, J, CL, RS, SP = (lambda w: O("complete", w)), (lambda j: O("join", j)), (lambda j: O("cleanup", j)), O("reqstop"), (lambda w: O("spawn", w))
+    f = Fam(0)
+    add = f.add
     add([SP(1)], [C(1)], [J(1)])
     add([SP(1)], [C(1)], [CL(1)])
     add([SP(1)], [CL(1), C(1)], [])
@@ -129,7 +166,30 @@ def scenarios_v0(tier):
         add([SP(1)], [RS, C(1)], [RS, J(1)])
         add([SP(1), C(1)], [SP(2), C(2)], [CL(1)])
         add([SP(1)], [J(1)], [C(1), J(2)])
-    return out
+    return f.out
+
+
+def scenarios_debug(ver, tier):
+    """the debug_async_scope wrappers: same protocol underneath, plus the registry of live operations"""
+    f = Fam(ver)
+    add = f.add
+    if ver == 12:
+        add([N(1), CP(1, 2), D(1), S(2), C(2)], [SP(3), C(3)], [J(1)])
+        add([N(1), S(1)], [C(1)], [J(1)])
+        add([N(1), LS(1, 2), D(1)], [C(2)], [J(1)])
+        add([FS(1, 5), FT(5, 1)], [C(1)], [J(1)])
+        if tier != "quick":
+            add([N(1), D(1)], [J(1)], [J(2)])
+            add([N(1), S(1), C(1)], [N(2), S(2), C(2)], [J(1), DR], man=1)
+    else:
+        add([SP(1)], [C(1)], [CL(1)])
+        add([N(1), S(1)], [RS, C(1)], [J(1)])
+        add([SP(1)], [CL(1), C(1)], [])
+        add([N(1), S(1), C(1)], [SP(2), C(2)], [CL(1)])
+        if tier != "quick":
+            add([N(1), S(1)], [RST(1), C(1)], [CL(1)])
+            add([FS(1, 5), C(1), FD(5, 1)], [], [J(1)])
+    return f.out
 
 
 def n_closers(sc):
@@ -138,12 +198,29 @@ def n_closers(sc):
     for p in sc["prog"]:
         for o in p:
             if o[0] in CLOSERS:
-                n += 2 if (o[0] == "cleanup" and sc["ver"] == 1) else 1
+                n += 2 if (o[0] == "cleanup" and sc["ver"] in (1, 11)) else 1
     return n
 
 
 def prog_text(sc):
-    return " | ".join("T%d: " % (i + 1) + " ".join(o[0] + "".join(" %d" % x for x in o[1:] if x) for o in p) for i, p in enumerate(sc["prog"]))
+    return " | ".join("T%d: " % (i + 1) + " ".join(o[0] + "".join(" %d" % x for x in o[1:] if x) for o in p) for i, p in enumerate(sc["prog"])) \
+        + (" [manual scheduler]" if sc.get("man") else "")
+
+
+# ----------------------------------------------------------------------------- is the repair in the header?
+def repair_present(repo):
+    """-> {2: bool, 0: bool}: False iff end_scope()/end_of_scope() has the historical form `if (count(oldState) == 0)`"""
+    res = {}
+    for ver, path, fn, old in ((2, "include/unifex/v2/async_scope.hpp", "void end_scope() noexcept {", r"if\s*\(\s*use_count\(oldState\)\s*==\s*0u?\s*\)"),
+                               (0, "include/unifex/v0/async_scope.hpp", "void end_of_scope() noexcept {", r"if\s*\(\s*op_count\(oldState\)\s*==\s*0u?\s*\)")):
+        try:
+            s = open(os.path.join(repo, path)).read()
+            i = s.index(fn)
+            body = s[i:s.index("\n  }", i)]
+            res[ver] = re.search(old, body) is None
+        except (OSError, ValueError):
+            res[ver] = True
+    return res
 
 
 # ----------------------------------------------------------------------------- death classification
@@ -162,12 +239,12 @@ def report_death(rep, d, mode, sc, eager):
     txt = (d.get("stderr_tail") or "") + " ".join(d.get("frames") or []) + (d.get("where") or "")
     # an exact deadlock (controller: no enabled thread) is a progress failure; a watchdog "Hang" may be machine load -> not an alarm
     in_scope = d["event"] != "Hang" and (d["event"] == "Deadlock" or bool(SCOPE_FILES.search(txt)))
+    vn = VERNAME.get(sc["ver"], "?") if sc else "?"
     rec = dict(engine="scope", mode=mode, event=d["event"], unit=d["x"], ver=sc["ver"] if sc else None,
                scenario=prog_text(sc) if sc else None, closers=n_closers(sc) if sc else None, eager=bool(eager),
-               asan=d.get("asan"), frame=d.get("frame"), where=(d.get("where") or "").split("/wt_scope/")[-1],
+               asan=d.get("asan"), frame=d.get("frame"), where=re.sub(r"^.*?/(include|source)/", r"\1/", d.get("where") or ""),
                access=d.get("access"), sig=death_signature(d),
-               what="%s in %s unit %s (v%s scope, %s): %s %s" % (d["event"], mode, d["x"], sc["ver"] if sc else "?",
-                                                                prog_text(sc) if sc else "", d.get("asan", ""), d.get("frame", "")),
+               what="%s in %s unit %s (%s scope, %s): %s %s" % (d["event"], mode, d["x"], vn, prog_text(sc) if sc else "", d.get("asan", ""), d.get("frame", "")),
                detail=(d.get("stderr_tail") or "")[-1200:])
     if in_scope:
         rep.violation(rec)
@@ -175,12 +252,18 @@ def report_death(rep, d, mode, sc, eager):
         rep.oos.append(rec)
 
 
-# ----------------------------------------------------------------------------- the engine
+def unexplained(rep):
+    """violations that are not listed as known findings (once there is one, the verdict is fixed: stop early)"""
+    known = vlib.load_known()
+    return [v for v in rep.violations if not vlib.known_match(dict(v, property=rep.prop), known)]
+
+
+# ----------------------------------------------------------------------------- running the real code
 def run_mode(ctx, exe, mode, args, total, unit_info, label):
     rep = ctx.rep
     t0 = time.time()
     lp = os.path.join(ctx.work, "log_%s.ndjson" % label)
-    sums, deaths = vlib.run_batches(ctx, exe, args, total, lp, timeout=1500)
+    sums, deaths = vlib.run_batches(ctx, exe, args, total, lp, timeout=3000)
     execs = sum(1 for ln in open(lp) if '"e":"Reset"' in ln) + len(deaths)
     rep.evaluations += execs
     for s in sums:
@@ -202,120 +285,136 @@ def run_mode(ctx, exe, mode, args, total, unit_info, label):
         sc, eager = unit_info(rj["x"])
         evs = rj["events"]
         bad = evs[rj["prefix"]] if rj.get("prefix") is not None and rj["prefix"] < len(evs) else None
+        vn = VERNAME.get(sc["ver"], "?") if sc else "?"
         rep.violation(dict(engine="scope", mode=label, event="MonitorReject", unit=rj["x"], ver=sc["ver"] if sc else None,
                            scenario=prog_text(sc) if sc else None, rejected_event=bad,
-                           what="ScopeMon rejects an execution recorded in %s mode (v%s scope, %s) at event %s: %s"
-                                % (label, sc["ver"] if sc else "?", prog_text(sc) if sc else "", rj.get("prefix"), json.dumps(bad)),
+                           what="ScopeMon rejects an execution recorded in %s mode (%s scope, %s) at event %s: %s"
+                                % (label, vn, prog_text(sc) if sc else "", rj.get("prefix"), json.dumps(bad)),
                            events=evs))
     rep.note("%s: %d executions, %d deaths, %.1fs incl. validation" % (label, execs, len(deaths), time.time() - t0))
-    if mode == "random" and n:
+    if mode == "random" and n and label == "random-v2":
         ex = vlib.split_executions(lp)[0]
         rep.sample(dict(kind="recorded-trace", events=[json.loads(x) for x in ex[1][:40]]))
     return execs
 
 
-def unexplained(rep):
-    """violations that are not listed as known findings (once there is one, the verdict is fixed: stop early)"""
-    known = vlib.load_known()
-    return [v for v in rep.violations if not vlib.known_match(dict(v, property=rep.prop), known)]
+def behaviours_from_edges(ctx, edges, scns, cap, extra_random=0):
+    """edge-covering (+ random) walks -> distinct behaviours; those through the touch-after-destruction state (only present when
+    the historical variant is the transcription) are kept first"""
+    adj, inits, nedges = vlib.read_edges(edges)
+    walks = vlib.edge_cover(adj, inits)
+    if extra_random:
+        walks += vlib.random_walks(adj, inits, extra_random, ctx.rng)
+    seen, behs = set(), []
+    for w in walks:
+        sched = [[e["th"], e["pc"]] for e in w]
+        k = json.dumps([w[0]["scn"], sched])
+        if k in seen:
+            continue
+        seen.add(k)
+        fin = w[-1]["obs"]
+        behs.append(dict(scn=w[0]["scn"], sched=sched, adm=fin["adm"], jst=fin["jst"], eager=1,
+                         bad=any(e["obs"]["bad"] != "ok" for e in w)))
+    nall = len(behs)
+    if len(behs) > cap:
+        keep = [b for b in behs if b["bad"]][:40]
+        rest = [b for b in behs if not b["bad"]]
+        step = len(rest) // max(1, cap - len(keep)) + 1
+        behs = keep + rest[::step]
+    return behs, nedges, len(walks), nall
 
 
 def run(ctx):
     rep = ctx.rep
     rep.assume("sequentially consistent interleavings at schedule-point granularity (x86-TSO hardware; weak-memory reorderings not explored)")
-    rep.assume("<= 3 threads, <= 4 work items, <= 2 joins per scenario; join receivers use an inline scheduler; "
-               "stop source internals are C03's business (its own schedule points are not interleaved here)")
+    rep.assume("<= 3 threads, <= 4 work items (+ 2 futures), <= 2 joins per scenario; join receivers use an inline or a manual "
+               "(harness run queue) scheduler; stop source internals are C03's and the future's own state machine is C09's "
+               "business (their schedule points are interleaved only where they are seams of the scope protocol)")
     q = ctx.quick
-    exe = vlib.build(ctx, "scope_driver", ["engines/scope/driver.cpp"], lib=LIB)
+    hdr = hashlib.sha1(open(os.path.join(HERE, "scope_world.hpp"), "rb").read()).hexdigest()[:12]
+    exe = vlib.build(ctx, "scope_driver", ["engines/scope/driver.cpp"] + ["engines/scope/driver_v%d.cpp" % v for v in (2, 1, 0, 12, 11)],
+                     lib=LIB, incs=[HERE], defs=["SCOPE_WORLD_HDR=%s" % hdr])
+    fixed = repair_present(ctx.repo)
+    fixed[1] = fixed[2]
+    for ver in (2, 0):
+        if not fixed[ver]:
+            rep.note("REGRESSION: %s no longer signals from end_scope only when the call cleared the open bit; the historical "
+                     "variant is used as the transcription and its counterexamples are replayed on the real code"
+                     % ("v2/async_scope.hpp (v2 and v1 scopes)" if ver == 2 else "v0/async_scope.hpp"))
 
-    # ================= v2: model checking + export + guided replay
-    s2 = scenarios_v2(ctx.tier)
-    sp2 = os.path.join(ctx.work, "scn_v2.json")
-    json.dump(s2, open(sp2, "w"))
-    edges = os.path.join(ctx.work, "edges_v2.ndjson")
-    vlib.model_check(ctx, "scope", "ScopeV2MC", env={"SCENARIOS": sp2, "EDGES": edges}, workers=1, timeout=1500)
-    vlib.model_check(ctx, "scope", "ScopeV2Live", cfg="ScopeV2Live.cfg", env={"SCENARIOS": sp2}, timeout=1500)
-    rt = vlib.model_check(ctx, "scope", "ScopeV2MC", cfg="ScopeV2Touch.cfg", env={"SCENARIOS": sp2, "EDGES": os.devnull},
-                          must_hold=False, timeout=1500)
-    rf = vlib.model_check(ctx, "scope", "ScopeV2MC", cfg="ScopeV2Fixed.cfg", env={"SCENARIOS": sp2, "EDGES": os.devnull}, timeout=1500)
-    if rt["kind"] == "invariant":
-        rep.note("ScopeV2 (code as written) violates NoTouchAfterDestruction: a later end_scope() that finds count == 0 signals the "
-                 "join event while the last completer is still between fetch_sub and evt_.set(); the variant FirstCloserOnly=TRUE "
-                 "(proposed repair) satisfies every invariant (%d states). Reported only through real-code reproductions below." % rf["distinct"])
-    elif rt["kind"] != "ok":
-        raise vlib.Broken("TLC %s on ScopeV2Touch.cfg:\n%s" % (rt["kind"], rt["out"][-2000:]))
-    rep.exhaustive = True
-    adj, inits, nedges = vlib.read_edges(edges)
-    walks = vlib.edge_cover(adj, inits)
-    if not q:
-        walks += vlib.random_walks(adj, inits, 2000, ctx.rng)
-    bp = os.path.join(ctx.work, "behaviours_v2.ndjson")
-    seen, behs, eager_bad = set(), [], set()
-    for w in walks:
-        sched = [[e["th"], e["pc"]] for e in w]
-        fin = w[-1]["obs"]
-        hits_bad = any(e["obs"]["bad"] != "ok" for e in w)
-        scn = w[0]["scn"]
-        eager = 1
-        if hits_bad:
-            eager = 0 if scn in eager_bad else 1     # the first behaviour per scenario that reaches the bad state is the reproduction
-            eager_bad.add(scn)
-        b = dict(scn=scn, sched=sched, adm=fin["adm"], jst=fin["jst"], eager=eager, bad=hits_bad)
-        k = json.dumps([scn, sched])
-        if k in seen:
-            continue
-        seen.add(k)
-        behs.append(b)
-    gcap = 1000 if q else 6000
-    if len(behs) > gcap:     # every reproduction of the bad state + an even sample of the rest
-        keep = [b for b in behs if b["bad"] and b["eager"]]
-        rest = [b for b in behs if not (b["bad"] and b["eager"])]
-        step = len(rest) // (gcap - len(keep)) + 1
-        behs = keep + rest[::step]
-    with open(bp, "w") as f:
-        for b in behs:
-            f.write(json.dumps(b) + "\n")
-    for b in behs[:2]:
-        rep.sample(dict(kind="tlc-behaviour", scenario=prog_text(s2[b["scn"] - 1]), schedule=b["sched"], expect=dict(adm=b["adm"], joins=b["jst"])))
-    rep.note("v2: %d scenarios, edges exported %d, edge-covering walks %d, distinct behaviours %d (%d through the touch-after-destruction state)"
-             % (len(s2), nedges, len(walks), len(behs), sum(1 for b in behs if b["bad"])))
-    run_mode(ctx, exe, "guided", ["--mode", "guided", "--scenarios", sp2, "--behaviours", bp], len(behs),
-             lambda x: (s2[behs[x]["scn"] - 1], behs[x]["eager"]) if x is not None and x < len(behs) else (None, None), "guided-v2")
-
-    if unexplained(rep):
-        rep.note("stopping after the first mode that produced a new violation")
-        return
-    # ================= v2 / v1 / v0: DFS + random schedules of the real code
-    for ver, scns in ((2, s2), (1, scenarios_v1(ctx.tier)), (0, scenarios_v0(ctx.tier))):
+    fams = {2: scenarios_v2(ctx.tier), 1: scenarios_v1(ctx.tier), 0: scenarios_v0(ctx.tier)}
+    gcap = {2: 800 if q else 5000, 1: 500 if q else 3000, 0: 250 if q else 1500}
+    dcap = {2: 40 if q else 300, 1: 60 if q else 300, 0: 60 if q else 300}
+    for ver in (2, 1, 0):
+        scns = fams[ver]
         sp = os.path.join(ctx.work, "scn_v%d.json" % ver)
         json.dump(scns, open(sp, "w"))
-        if ver != 2:
-            # implementation-shaped specs of the v1 / v0 scopes: invariants on every interleaving of the same scenarios
-            mod = "ScopeV%dMC" % ver
-            vlib.model_check(ctx, "scope", mod, cfg="ScopeV%dMC.cfg" % ver, env={"SCENARIOS": sp}, timeout=1500)
-            r = vlib.model_check(ctx, "scope", mod, cfg="ScopeV%dTouch.cfg" % ver, env={"SCENARIOS": sp}, must_hold=False, timeout=1500)
-            if r["kind"] not in ("ok", "invariant"):
-                raise vlib.Broken("TLC %s on ScopeV%dTouch.cfg:\n%s" % (r["kind"], ver, r["out"][-2000:]))
-            if r["kind"] == "invariant":
-                rep.note("ScopeV%d (code as written) violates NoTouchAfterDestruction (same defect as in ScopeV2)" % ver)
+        mod = "ScopeV%dMC" % ver
+        # ---- TLC: the transcription (+ edge export), liveness, the spec-level mutation
+        edges = os.path.join(ctx.work, "edges_v%d.ndjson" % ver)
+        cfg = "ScopeV%dMC.cfg" % ver if fixed[ver] else "ScopeV%dMCOld.cfg" % ver
+        vlib.model_check(ctx, "scope", mod, cfg=cfg, env={"SCENARIOS": sp, "EDGES": edges}, workers=1, timeout=3000)
+        if ver == 2 or not q:
+            vlib.model_check(ctx, "scope", "ScopeV2Live" if ver == 2 else mod, cfg="ScopeV%dLive.cfg" % ver, env={"SCENARIOS": sp}, timeout=3000)
+        ro = vlib.model_check(ctx, "scope", mod, cfg="ScopeV%dOld.cfg" % ver, env={"SCENARIOS": sp}, must_hold=False, timeout=3000)
+        if not (ro["kind"] == "invariant" and ro["violated"] == "NoTouchAfterDestruction"):
+            raise vlib.Broken("spec-level mutation ScopeV%dOld.cfg (historical end_scope) does not violate NoTouchAfterDestruction: %s\n%s"
+                              % (ver, ro["kind"], ro["out"][-1500:]))
+        rep.exhaustive = True
+        # ---- guided replay of edge-covering behaviours
+        behs, nedges, nwalks, nall = behaviours_from_edges(ctx, edges, scns, gcap[ver], 0 if q else 1500)
+        bp = os.path.join(ctx.work, "behaviours_v%d.ndjson" % ver)
+        with open(bp, "w") as f:
+            for b in behs:
+                f.write(json.dumps(b) + "\n")
+        if ver == 2:
+            for b in behs[:2]:
+                rep.sample(dict(kind="tlc-behaviour", scenario=prog_text(scns[b["scn"] - 1]), schedule=b["sched"], expect=dict(adm=b["adm"], joins=b["jst"])))
+        rep.note("v%d: %d scenarios, edges exported %d, edge-covering walks %d, distinct behaviours %d, replayed %d%s"
+                 % (ver, len(scns), nedges, nwalks, nall, len(behs), "" if fixed[ver] else " (%d through the touch-after-destruction state)" % sum(1 for b in behs if b["bad"])))
+        run_mode(ctx, exe, "guided", ["--mode", "guided", "--scenarios", sp, "--behaviours", bp], len(behs),
+                 (lambda bs, ss: (lambda x: (ss[bs[x]["scn"] - 1], bs[x]["eager"]) if x is not None and x < len(bs) else (None, None)))(behs, scns),
+                 "guided-v%d" % ver)
+        if unexplained(rep):
+            rep.note("stopping after the first mode that produced a new violation")
+            return
+        # ---- DFS + random schedules of the real code (scope destroyed eagerly; under a regression also late, because the
+        # touch-after-destruction kills an eager unit at its first bad schedule)
+        units = [[i, 1] for i in range(len(scns))] + ([] if fixed[ver] else [[i, 0] for i, s in enumerate(scns) if n_closers(s) >= 2])
+        if not real_runs(ctx, exe, scns, units, sp, "v%d" % ver, dcap[ver], 15 if q else 60):
+            return
+
+    # ================= futures nested in the scope (v2: also model-checked; v1: real code + monitor)
+    for ver in (2, 1):
+        scns = scenarios_fut(ver, ctx.tier)
+        sp = os.path.join(ctx.work, "scn_fut%d.json" % ver)
+        json.dump(scns, open(sp, "w"))
+        if ver == 2:
+            vlib.model_check(ctx, "scope", "ScopeV2MC", cfg="ScopeV2NoExport.cfg", env={"SCENARIOS": sp}, timeout=3000)
             if not q:
-                vlib.model_check(ctx, "scope", mod, cfg="ScopeV%dFixed.cfg" % ver, env={"SCENARIOS": sp}, timeout=1500)
-                vlib.model_check(ctx, "scope", mod, cfg="ScopeV%dLive.cfg" % ver, env={"SCENARIOS": sp}, timeout=1500)
-        # every scenario with eager destruction of the scope; those in which end_scope runs more than once also with late
-        # destruction (the known touch-after-destruction kills the eager unit at its first bad schedule)
-        units = [[i, 1] for i in range(len(scns))] + [[i, 0] for i, s in enumerate(scns) if n_closers(s) >= 2]
-        up = os.path.join(ctx.work, "units_v%d.json" % ver)
-        json.dump(units, open(up, "w"))
-        info = (lambda us, ss: (lambda x: (ss[us[x][0]], us[x][1]) if x is not None and x < len(us) else (None, None)))(units, scns)
-        run_mode(ctx, exe, "dfs", ["--mode", "dfs", "--scenarios", sp, "--units", up, "--bound", 2 if q else 3,
-                                   "--cap", 60 if q else 300], len(units), info, "dfs-v%d" % ver)
-        if unexplained(rep):
-            rep.note("stopping after the first mode that produced a new violation")
+                vlib.model_check(ctx, "scope", "ScopeV2Live", cfg="ScopeV2Live.cfg", env={"SCENARIOS": sp}, timeout=3000)
+        if not real_runs(ctx, exe, scns, [[i, 1] for i in range(len(scns))], sp, "fut-v%d" % ver, 50 if q else 300, 15 if q else 60):
             return
-        run_mode(ctx, exe, "random", ["--mode", "random", "--scenarios", sp, "--units", up, "--seed", ctx.seed,
-                                      "--cap", 15 if q else 60], len(units), info, "random-v%d" % ver)
-        if unexplained(rep):
-            rep.note("stopping after the first mode that produced a new violation")
+    # ================= debug_async_scope wrappers
+    for ver in (12, 11):
+        scns = scenarios_debug(ver, ctx.tier)
+        sp = os.path.join(ctx.work, "scn_dbg%d.json" % ver)
+        json.dump(scns, open(sp, "w"))
+        if not real_runs(ctx, exe, scns, [[i, 1] for i in range(len(scns))], sp, "debug-v%d" % (ver - 10), 40 if q else 300, 10 if q else 60):
             return
-    rep.rule("executions = guided replays of TLC behaviours (v2) + DFS(preemption-bounded) + seeded random schedules of the real "
-             "v2/v1/v0 async_scope; distinct_nontrivial = distinct recorded event sequences with more than 3 events")
+    rep.rule("executions = guided replays of TLC behaviours (v2, v1, v0) + DFS(preemption-bounded) + seeded random schedules of the real "
+             "v2/v1/v0 async_scope, futures nested in them and the debug_async_scope wrappers; distinct_nontrivial = distinct "
+             "recorded event sequences with more than 3 events")
+
+
+def real_runs(ctx, exe, scns, units, sp, tag, dcap, rcap):
+    q = ctx.quick
+    up = os.path.join(ctx.work, "units_%s.json" % tag)
+    json.dump(units, open(up, "w"))
+    info = (lambda us, ss: (lambda x: (ss[us[x][0]], us[x][1]) if x is not None and x < len(us) else (None, None)))(units, scns)
+    for mode, args in (("dfs", ["--bound", 2 if q else 3, "--cap", dcap]), ("random", ["--seed", ctx.seed, "--cap", rcap])):
+        run_mode(ctx, exe, mode, ["--mode", mode, "--scenarios", sp, "--units", up] + args, len(units), info, "%s-%s" % (mode, tag))
+        if unexplained(ctx.rep):
+            ctx.rep.note("stopping after the first mode that produced a new violation")
+            return False
+    return True
